@@ -78,6 +78,7 @@ fn ls_rec(base: &Path, rel: &Path, out: &mut Vec<(String, u64, bool)>) {
 }
 
 pub struct Exec {
+    aux_ctr: u64,
     base: PathBuf,
     topics: Vec<String>,
     insts: Vec<Option<std::sync::Arc<Walrus>>>,
@@ -189,6 +190,17 @@ impl Exec {
                     Ok(()) => Resp::Ok,
                     Err(e) => err(e),
                 }
+            }
+            Op::Touch { inst, n } => {
+                let Some(w) = self.inst(*inst) else { return Resp::Unsupported("no instance".into()) };
+                for _ in 0..*n {
+                    let name = format!("__aux_{}", self.aux_ctr);
+                    self.aux_ctr += 1;
+                    if let Err(e) = w.append_for_topic(&name, b"x") {
+                        return err(e);
+                    }
+                }
+                Resp::Ok
             }
             Op::AppendZero { inst, t, len } => {
                 let Some(w) = self.inst(*inst) else { return Resp::Unsupported("no instance".into()) };
@@ -308,6 +320,9 @@ pub fn main_exec() -> i32 {
     std::env::set_var("WALRUS_QUIET", "1");
     std::panic::set_hook(Box::new(|info| {
         let msg = format!("{}", info);
+        if std::env::var("WVERIF_BT").is_ok() {
+            eprintln!("{}", std::backtrace::Backtrace::force_capture());
+        }
         emit(&Resp::Panic(msg));
         unsafe { libc::_exit(101) }
     }));
@@ -325,7 +340,7 @@ pub fn main_exec() -> i32 {
     let mut ack = Ack {
         fd: init.ack_log.as_ref().map(|p| std::fs::OpenOptions::new().create(true).append(true).open(p).expect("ack log")),
     };
-    let mut ex = Exec { base: PathBuf::from(&init.base), topics: init.topics.clone(), insts: Vec::new(), zero: Vec::new() };
+    let mut ex = Exec { aux_ctr: 0, base: PathBuf::from(&init.base), topics: init.topics.clone(), insts: Vec::new(), zero: Vec::new() };
     emit(&Resp::Ok);
     for line in lines {
         let Ok(line) = line else { break };
